@@ -90,6 +90,22 @@ def encoders(rng):
     encs["decimal_spellings"] = mk({0: "2", 1: "2.0"})
     encs["stringified_missing"] = mk({0: "nan", 1: "None"})
     encs["digit_string_vs_number"] = lambda t, e, i: (("7", "7") if e == 0 else ("7", 7)) if t else ((3, 3) if e == 0 else ("3", 3))
+    # one mutable container per argument, refilled in place before every call (a caller's label buffers)
+    bufs = {"a": (np.zeros(1, dtype=np.int64), np.zeros(1, dtype=np.int64)), "l": ([0], [0]), "s": (pd.Series([0]), pd.Series([0]))}
+
+    def reused(kind):
+        def f(t, e, i):
+            bt, bp = bufs[kind]
+            if kind == "s":
+                bt.iloc[0], bp.iloc[0] = t, t ^ e
+            else:
+                bt[0], bp[0] = t, t ^ e
+            return bt, bp
+        return f
+
+    encs["reused_array_buffers"] = reused("a")
+    encs["reused_list_buffers"] = reused("l")
+    encs["reused_series_buffers"] = reused("s")
     encs["pair_substitution"] = lambda t, e, i: ((i % 4, i % 4) if e == 0 else (i % 4, (i + 1 + i % 2) % 4))
     return encs
 
